@@ -148,6 +148,11 @@ Section Programs.
     | O => RRet (RO OBlockRes)
     | S n => poll_p pfuel (monitor_p pfuel n)
     end.
+
+  (* the threads of the tower: an API worker serving one request, or the chain monitor *)
+  Inductive tspec := TApi (o : op) | TMonitor (polls : nat).
+  Definition thread_p (pfuel : nat) (s : tspec) : rprog rout :=
+    match s with TApi o => api_p o | TMonitor n => monitor_p pfuel n end.
 End Programs.
 
 (* ------------------------------------------------------------------------------------------ *)
